@@ -70,6 +70,18 @@ def _invariants(p, out, step, opname):
         fail("psd_not_finite", "distribution contains non-finite values")
     elif np.any(n < 0):
         fail("psd_negative", "distribution has negative populations (min %r)" % float(n.min()))
+    if ok:
+        # "every moment function evaluated on a supplied distribution depends only on that distribution and the grid" - also after
+        # the grid has been through a history (caches of powers of the class centres must follow every grid change)
+        probe = np.arange(1.0, len(c) + 1.0)
+        for k in (0, 1, 2, 3):
+            want = float(np.sum(probe * c ** k))
+            got = float(p.MomentFromN(probe, k))
+            gotc = np.asarray(p.CumulativeMomentFromN(probe, k), dtype=float)
+            gotw = float(p.WeightedMomentFromN(probe, k, np.full(len(c), 2.0)))
+            if not (math.isclose(got, want, rel_tol=1e-12) and gotc.shape == c.shape and math.isclose(float(gotc[-1]), want, rel_tol=1e-12) and math.isclose(gotw, 2 * want, rel_tol=1e-12)):
+                fail("moment_after_history", "moment of order %d of a supplied distribution: MomentFromN %r, cumulative %r, weighted/2 %r; sum over the current grid %r" % (k, got, float(gotc[-1]) if gotc.shape == c.shape else gotc.shape, gotw / 2, want))
+                break
     return ok
 
 
